@@ -27,6 +27,7 @@ type c09Stmt struct {
 	Kind      string `json:"kind"`             // select | use | insert | update | delete | batch | ddl
 	Text      string `json:"text"`
 	Token     string `json:"token,omitempty"`
+	Comment   string `json:"comment,omitempty"` // where a CQL comment was inserted (comments are whitespace to CQL)
 	// model verdict
 	Handled bool `json:"handled"`
 }
@@ -96,7 +97,26 @@ func c09Gen(rt *rapid.T, withToken bool) c09Stmt {
 	switch s.Kind {
 	case "select":
 		sel := c09Selectors[rapid.IntRange(0, len(c09Selectors)-1).Draw(rt, "selector")]
-		s.Text = kw("SELECT") + ws("w1") + sel + ws("w2") + kw("FROM") + ws("w3") + name + ws("w4") + kw("WHERE") + " key = '" + tok + "'" + c09Tails[rapid.IntRange(0, len(c09Tails)-1).Draw(rt, "tail")]
+		cm := func(pos string) string {
+			if s.Comment == pos {
+				return rapid.SampledFrom([]string{"/* c */", "/* topology\nrefresh */ ", "-- c\n", "// c\n"}).Draw(rt, "commenttext")
+			}
+			return ""
+		}
+		if rapid.IntRange(0, 5).Draw(rt, "hascomment") == 0 {
+			s.Comment = rapid.SampledFrom([]string{"leading", "selectors", "before-table", "in-qualified-name", "trailing"}).Draw(rt, "commentpos")
+			if s.Comment == "in-qualified-name" && s.Qualifier == "" {
+				s.Comment = "before-table"
+			}
+		}
+		qname := name
+		if s.Comment == "in-qualified-name" {
+			qname = s.Qualifier + "." + cm("in-qualified-name") + s.Table
+		}
+		s.Text = cm("leading") + kw("SELECT") + ws("w1") + cm("selectors") + sel + ws("w2") + kw("FROM") + ws("w3") + cm("before-table") + qname + ws("w4") + kw("WHERE") + " key = '" + tok + "'" + c09Tails[rapid.IntRange(0, len(c09Tails)-1).Draw(rt, "tail")]
+		if s.Comment == "trailing" {
+			s.Text += " " + rapid.SampledFrom([]string{"/* c */", "-- c", "// c"}).Draw(rt, "trailingcomment")
+		}
 	case "insert":
 		s.Text = kw("INSERT") + " INTO " + name + " (key, v) VALUES ('" + tok + "', 1)"
 	case "update":
@@ -111,7 +131,11 @@ func c09Gen(rt *rapid.T, withToken bool) c09Stmt {
 	case "use":
 		s.Text = kw("USE") + ws("w1") + rapid.SampledFrom([]string{"ks1", "system", `"Ks1"`, "KS1"}).Draw(rt, "useks")
 	}
-	switch rapid.IntRange(0, 5).Draw(rt, "terminator") {
+	term := rapid.IntRange(0, 5).Draw(rt, "terminator")
+	if s.Comment == "trailing" {
+		term = 5
+	}
+	switch term {
 	case 0:
 		s.Text += ";"
 	case 1:
@@ -155,6 +179,9 @@ func c09ParserCheck(s c09Stmt) *evid.Fail {
 		if handled {
 			sig = "intercepts-user-statement"
 		}
+		if s.Comment != "" && !handled {
+			return evid.Failf("forwards-system-read:comment-"+s.Comment, "IsQueryHandled(current keyspace %q, %q) = false: a CQL comment (%s) makes a read of a virtualised system table look like a user statement", s.CurrentKs, s.Text, s.Comment)
+		}
 		return evid.Failf(sig+":"+c09Class(s), "IsQueryHandled(current keyspace %q, %q) = %v, the documented rule says %v", s.CurrentKs, s.Text, handled, s.Handled)
 	}
 	return nil
@@ -164,8 +191,10 @@ func c09ParserCheck(s c09Stmt) *evid.Fail {
 type c09E2E struct {
 	Version int       `json:"version"`
 	Stmts   []c09Stmt `json:"statements"`
-	Prepare []bool    `json:"as_prepare"`    // send statement i as PREPARE (+EXECUTE) instead of QUERY
-	PrepKs  []bool    `json:"prepare_field"` // v5/DSEv2: put the current keyspace into the PREPARE keyspace field instead of USE
+	Prepare []bool    `json:"as_prepare"`                  // send statement i as PREPARE (+EXECUTE) instead of QUERY
+	PrepKs  []bool    `json:"prepare_field"`               // v5/DSEv2: put the current keyspace into the PREPARE keyspace field instead of USE
+	FailUse []bool    `json:"failed_use_before,omitempty"` // a USE that the backend rejects is sent just before statement i
+	NoSysKs bool      `json:"backend_without_system_keyspace,omitempty"`
 }
 
 func c09E2ECheck(c c09E2E) *evid.Fail {
@@ -175,9 +204,15 @@ func c09E2ECheck(c c09E2E) *evid.Fail {
 		return evid.Failf("harness-env", "%v", err)
 	}
 	defer e.Close()
+	if c.NoSysKs {
+		e.Cluster.SetKeyspace("system", false) // "USE system" now fails at the backend
+	}
 	cur := "\x00"
 	var r *runner
 	for i, s := range c.Stmts {
+		if c.NoSysKs && s.CurrentKs != "" && fakecass.CQLIdent(s.CurrentKs) == "system" {
+			continue // cannot be set up on this backend
+		}
 		usePrepField := c.Prepare[i] && c.PrepKs[i] && v.SupportsPrepareFlags() && s.CurrentKs != ""
 		want := s.CurrentKs
 		if usePrepField {
@@ -202,9 +237,29 @@ func c09E2ECheck(c c09E2E) *evid.Fail {
 			}
 			cur = want
 		}
+		if i < len(c.FailUse) && c.FailUse[i] && s.Kind != "use" {
+			// a rejected USE must leave the keyspace (and therefore the routing decision) untouched
+			target := fmt.Sprintf("no_such_keyspace_%d", i)
+			if c.NoSysKs {
+				target = "system"
+			}
+			st := r.nextStream()
+			from := r.c.NumFrames()
+			_ = r.c.SendMsg(v, st, &message.Query{Query: "USE " + target, Options: &message.QueryOptions{Consistency: primitive.ConsistencyLevelOne}}, false)
+			rp := r.c.WaitStream(st, from, 1, posWait)
+			if rp == nil {
+				return evid.Failf("no-reply:use", "no reply to USE %s", target)
+			}
+			if b, err := r.c.Decode(rp); err != nil || b.Message.GetOpCode() != primitive.OpCodeError {
+				return evid.Failf("failed-use-accepted", "USE %s, which the backend rejects, was answered with %v %v", target, b, err)
+			}
+		}
 		st := r.nextStream()
 		from := r.c.NumFrames()
 		what := fmt.Sprintf("%q with current keyspace %q (%s)", s.Text, s.CurrentKs, c09Class(s))
+		if i < len(c.FailUse) && c.FailUse[i] {
+			what += " after a rejected USE"
+		}
 		var rp interface{ String() string }
 		_ = rp
 		stallReset()
@@ -241,6 +296,9 @@ func c09E2ECheck(c c09E2E) *evid.Fail {
 			continue
 		}
 		if s.Handled {
+			if atBackend && s.Comment != "" {
+				return evid.Failf("forwards-system-read:comment-"+s.Comment, "%s of %s reached the backend: a CQL comment (%s) defeats the interception of system-table reads", mode, what, s.Comment)
+			}
 			if atBackend {
 				return evid.Failf("system-read-forwarded:"+c09Class(s), "%s of %s reached the backend (the real topology would be exposed)", mode, what)
 			}
@@ -307,14 +365,18 @@ func TestC09(t *testing.T) {
 		return s
 	}, c09ParserCheck)
 
-	runProp(t, rec, "e2e", perShard(evid.Pick(800, 30000)), func(rt *rapid.T) c09E2E {
-		c := c09E2E{Version: int(protogen.Version(rt))}
+	runProp(t, rec, "e2e", perShard(evid.Pick(4000, 80000)), func(rt *rapid.T) c09E2E {
+		c := c09E2E{Version: int(protogen.Version(rt)), NoSysKs: rapid.IntRange(0, 2).Draw(rt, "nosysks") == 0}
 		n := rapid.IntRange(1, 8).Draw(rt, "nstmts")
 		for i := 0; i < n; i++ {
 			s := c09Gen(rt, true)
 			c.Stmts = append(c.Stmts, s)
 			c.Prepare = append(c.Prepare, rapid.Bool().Draw(rt, "asprepare"))
 			c.PrepKs = append(c.PrepKs, rapid.Bool().Draw(rt, "prepks"))
+			c.FailUse = append(c.FailUse, rapid.IntRange(0, 3).Draw(rt, "failuse") == 0)
+			if c.FailUse[i] {
+				rec.Label("e2e:after-rejected-use")
+			}
 			rec.Label("e2e:"+c09Class(s), map[bool]string{true: "e2e:PREPARE", false: "e2e:QUERY"}[c.Prepare[i]])
 		}
 		key := ""
